@@ -32,6 +32,7 @@ type Program struct {
 	Targets  map[string]bool // package paths considered "ours" (always inlined)
 	LoadTime time.Duration
 	srcHash  map[string]string
+	fnIdx    map[string]int
 	mu       sync.Mutex
 }
 
@@ -545,9 +546,39 @@ func (e *Engine) chanClose(st *State, ch Value) {
 	st.events = append(st.events, Event{Tag: "close", Args: []Value{ch}})
 }
 
+// selectStmt: a nondeterministic choice among the cases (and default);
+// received values are fresh.
 func (e *Engine) selectStmt(st *State, fr *frame, x *ssa.Select) Value {
-	st.unsupported("select statement")
-	return nil
+	n := len(x.States)
+	hi := n - 1
+	if !x.Blocking {
+		hi = n // index -1 is modelled as n
+	}
+	if hi < 0 {
+		st.abort("done", "select{} blocks forever")
+	}
+	c := st.FreshTerm("select", SInt, 0)
+	st.assertTerm(And(IntLe(IntT64(0), c), IntLe(c, IntT64(int64(hi)))))
+	k := hi
+	for i := 0; i < hi; i++ {
+		if st.Branch(Eq(c, IntT64(int64(i)))) {
+			k = i
+			break
+		}
+	}
+	idx := int64(k)
+	if !x.Blocking && k == n {
+		idx = -1
+	}
+	tt := x.Type().(*types.Tuple)
+	res := make(TupleV, tt.Len())
+	res[0] = e.intTerm(big.NewInt(idx), types.Typ[types.Int])
+	res[1] = st.FreshTerm("recvok", SBool, 0)
+	for i := 2; i < tt.Len(); i++ {
+		res[i] = st.FreshValue("recv", tt.At(i).Type())
+	}
+	st.events = append(st.events, Event{Tag: "select", Args: []Value{res[0]}})
+	return res
 }
 
 // ---- exploration ----
